@@ -46,6 +46,16 @@ RULE = ("cases = corpus + EVERY history of length <=5 (thorough: <=6) creating a
         "repeat the previous step's observations (oracle clause `maintenance` = C08.unweave in Spec.lean, evaluated by the driver, which then removes the step; "
         "theorems maintenance_noop / maintenance_transparent / maintenance_exact: "
         "model and Spec see the same history without it, so every later step is also compared with the run that never cleared). "
+        "+ the RULE-NAME family (about 11,500 histories in the quick tier): the SOURCE-RULE NAME handed to insert_logical / "
+        "add_logical_justification / ActionResult::InsertLogicalFact is an input too — token suffix `@<n>` selects entry n of a table of "
+        "35 names (empty, blank, tab+newline, NUL, BOM, 64 blanks, 300 and 30,000 bytes long, non-ASCII / combining / astral, equal to "
+        "other justifications' names, to fact types, to rule names of the engine, to the words explicit / logical / None / null, GRL "
+        "text, a premise key); every exhaustive history of length <=4 with a logical insertion and a retraction, every fixed support "
+        "graph x retraction order and every reach shape gets the same name everywhere (each name in turn), the empty / blank name on "
+        "the first or last logical token only, a different name per token and empty/\"rule\" alternating; N/2 random histories (a "
+        "quarter with reach ops) draw a name per logical insertion. The name is a label: the driver removes the suffix (stripName), "
+        "model and oracle see the same history as without it; the harness also checks that the newest justification of the fact is "
+        "Logical, names exactly that rule and lists exactly those premises (flag `!rulename`). "
         "+ the REACH families (about 3,500 histories in the quick tier; every engine path through which facts are inserted, updated or "
         "retracted, not only the four API calls): ops `F<a>` = engine.insert(trigger fact) [one step], then reset() + fire_all() with "
         "the fired rule's action returning one ActionResult [second step]: Retract(h) (what GRL retract($X) produces), "
